@@ -61,7 +61,21 @@ func (x *Exec) loopBinds(fc *frameCtx) binds {
 		if fc.loops == nil || fc.loops[blk] == nil {
 			continue
 		}
+		if fc.curLoop != nil && blk != fc.curLoop && !blk.Dominates(fc.curLoop) {
+			continue // a variable of a loop that does not enclose or precede the one being specified
+		}
 		for _, in := range blk.Instrs {
+			phi, ok := in.(*ssa.Phi)
+			if !ok {
+				break
+			}
+			if v, ok := fc.env[phi]; ok && phi.Comment != "" {
+				b[phi.Comment] = TV{v, phi.Type()}
+			}
+		}
+	}
+	if fc.curLoop != nil {
+		for _, in := range fc.curLoop.Instrs {
 			phi, ok := in.(*ssa.Phi)
 			if !ok {
 				break
@@ -109,6 +123,9 @@ func (x *Exec) eval(fc *frameCtx, st, old *State, e *CExpr, b binds) TV {
 			if k < len(fc.callArgs) {
 				return fc.callArgs[k]
 			}
+		}
+		if v, ok := x.extraBinds[e.Name]; ok {
+			return v
 		}
 		if g := x.globalTV(fc, st, e.Name); g != nil {
 			return *g
